@@ -243,6 +243,63 @@ fn main() {
                 }
             }
         }
+        Some("deep-worker") => {
+            // deep-worker <depth> <op>: build a chain of nested SDG elements through the API and run one recursive call on it.
+            // The process dies (stack overflow = SIGSEGV/SIGABRT) or prints "done".
+            use autosar_data::{AutosarModel, AutosarVersion, ElementName};
+            let depth: usize = args[2].parse().unwrap();
+            let op = args[3].as_str();
+            let model = AutosarModel::new();
+            let file = model.create_file("deep.arxml", AutosarVersion::LATEST).unwrap();
+            let sdgs = model.root_element().create_sub_element(ElementName::AdminData).unwrap().create_sub_element(ElementName::Sdgs).unwrap();
+            let top = sdgs.create_sub_element(ElementName::Sdg).unwrap();
+            let mut cur = top.clone();
+            for _ in 0..depth {
+                cur = cur.create_sub_element(ElementName::Sdg).unwrap();
+            }
+            match op {
+                "element-serialize" => {
+                    // without indentation blow-up: serialize the innermost quarter only is not what we want; take the top
+                    let _ = top.serialize().len();
+                }
+                "sort" => model.sort(),
+                "duplicate" => {
+                    let d = model.duplicate();
+                    std::mem::forget(d);
+                }
+                "copy" => {
+                    let c = sdgs.create_copied_sub_element(&top);
+                    std::mem::forget(c);
+                }
+                "remove" => {
+                    sdgs.remove_sub_element(top.clone()).unwrap();
+                }
+                "dfs" => {
+                    let _ = model.elements_dfs().count();
+                }
+                "cmp" => {
+                    let other = sdgs.create_sub_element(ElementName::Sdg).unwrap();
+                    let _ = top.cmp(&other);
+                    let _ = top.cmp(&top.clone());
+                }
+                "check-compat" => {
+                    let _ = file.check_version_compatibility(AutosarVersion::Autosar_4_0_1).0.len();
+                }
+                "path" => {
+                    let _ = cur.xml_path().len();
+                    let _ = cur.model().is_ok();
+                    let _ = cur.min_version().is_ok();
+                }
+                "remove-file" => model.remove_file(&file),
+                _ => {}
+            }
+            // dropping a deep chain of Arcs recurses as well; that is Rust's drop glue, not a call of the crate - skip it
+            std::mem::forget(model);
+            std::mem::forget(top);
+            std::mem::forget(cur);
+            std::mem::forget(sdgs);
+            println!("done");
+        }
         Some("replay") => {
             let path = args.get(2).cloned().unwrap_or_default();
             let text = match std::fs::read_to_string(&path) {
@@ -256,6 +313,13 @@ fn main() {
             let code = match v.get("kind").and_then(|k| k.as_str()) {
                 Some("hist") => match serde_json::from_value::<check::HistReplay>(v) {
                     Ok(rep) => check::replay_hist(&rep),
+                    Err(e) => {
+                        eprintln!("bad replay file: {e}");
+                        2
+                    }
+                },
+                Some("deep") => match serde_json::from_value::<check::DeepReplay>(v) {
+                    Ok(rep) => check::replay_deep(&rep),
                     Err(e) => {
                         eprintln!("bad replay file: {e}");
                         2
